@@ -2,6 +2,7 @@ package rules
 
 import (
 	"fmt"
+	"go/ast"
 	"go/token"
 	"go/types"
 	"strings"
@@ -69,6 +70,24 @@ func (bc *boundaryChecker) asciiAt(f eng.Fact, s ssa.Value, match func(idx ssa.V
 		}
 		if idx, ok := lookupOf(y); ok && isASCIIConst(x) && match(idx) {
 			return true
+		}
+	}
+	// a byte-class table: classTable[s[i]] found true, where the table is a package-level [256]bool literal that
+	// nothing writes and whose true entries are all ASCII
+	if u, ok := f.Cond.(*ssa.UnOp); ok && f.Pos && u.Op == token.MUL {
+		if ia, ok := u.X.(*ssa.IndexAddr); ok {
+			if g, ok := ia.X.(*ssa.Global); ok {
+				if idx, ok := lookupOf(ia.Index); ok && match(idx) {
+					if keys, ok := boolTableTrueKeys(bc.p, g); ok && len(keys) > 0 {
+						for _, k := range keys {
+							if k >= 0x80 {
+								return false
+							}
+						}
+						return true
+					}
+				}
+			}
 		}
 	}
 	if call, ok := f.Cond.(*ssa.Call); ok && f.Pos && len(call.Call.Args) == 1 {
@@ -666,4 +685,87 @@ func asciiMatchPos(v, s ssa.Value) (ok, single bool) {
 		}
 	}
 	return false, false
+}
+
+// boolTableTrueKeys: the indices at which a package-level [N]bool array literal is true, when no function of the
+// module stores into the array.
+func boolTableTrueKeys(p *eng.Prog, g *ssa.Global) ([]int, bool) {
+	obj, ok := g.Object().(*types.Var)
+	if !ok || g.Pkg == nil {
+		return nil, false
+	}
+	for _, fn := range p.ModuleFuncs() {
+		if fn.Name() == "init" && fn.Parent() == nil {
+			continue // the package initialiser fills the literal
+		}
+		written := false
+		eng.Instrs(fn, true, func(in ssa.Instruction) {
+			if st, ok := in.(*ssa.Store); ok {
+				if ia, ok := st.Addr.(*ssa.IndexAddr); ok && ia.X == ssa.Value(g) {
+					written = true
+				}
+				if st.Addr == ssa.Value(g) {
+					written = true
+				}
+			}
+		})
+		if written {
+			return nil, false
+		}
+	}
+	for _, pk := range p.Pkgs {
+		if pk.Types != obj.Pkg() {
+			continue
+		}
+		for _, f := range pk.Syntax {
+			for _, d := range f.Decls {
+				gd, ok := d.(*ast.GenDecl)
+				if !ok {
+					continue
+				}
+				for _, sp := range gd.Specs {
+					vs, ok := sp.(*ast.ValueSpec)
+					if !ok {
+						continue
+					}
+					for i, nm := range vs.Names {
+						if pk.TypesInfo.Defs[nm] != types.Object(obj) || i >= len(vs.Values) {
+							continue
+						}
+						lit, ok := vs.Values[i].(*ast.CompositeLit)
+						if !ok {
+							return nil, false
+						}
+						var keys []int
+						next := 0
+						for _, el := range lit.Elts {
+							val := el
+							if kv, ok := el.(*ast.KeyValueExpr); ok {
+								tv, ok := pk.TypesInfo.Types[kv.Key]
+								if !ok || tv.Value == nil {
+									return nil, false
+								}
+								k, exact := constantInt(tv)
+								if !exact {
+									return nil, false
+								}
+								next = k
+								val = kv.Value
+							}
+							tv, ok := pk.TypesInfo.Types[val]
+							if !ok || tv.Value == nil {
+								return nil, false
+							}
+							if tv.Value.ExactString() == "true" {
+								keys = append(keys, next)
+							}
+							next++
+						}
+						return keys, true
+					}
+				}
+			}
+		}
+	}
+	return nil, false
 }
